@@ -65,7 +65,7 @@ RECURSIVE ReplayFrom(_, _, _)
 ReplayFrom(j, q, st) == IF q > Len(j) THEN st ELSE ReplayFrom(j, q + 1, ReplayRow(st, j[q]))
 Replay(j) == ReplayFrom(j, 1, Lost)
 
-Boundary(st, rows) == [rrs |-> st.rrs, ser |-> st.ser, rows |-> rows]
+Boundary(st, rows) == [rrs |-> st.rrs, ser |-> st.ser, rows |-> rows, sg |-> FALSE]
 \* the boundary a message in flight is heading for is entered when the message arrives, with a row
 \* count no journal reaches; Ack replaces it by the real one.  (The monitor knows the whole
 \* history afterwards; the machine has to carry the pending boundary.)
@@ -129,6 +129,21 @@ Receive ==
     /\ hist' = Append(hist, Boundary(fin', Far))
     /\ UNCHANGED <<mem, journal, chk, served, n, crashes>>
 
+\* ---- fault: for the duration of one message another connection (a backup, the sqlite3 shell)
+\* holds the write lock of the journal.  The write-ahead rows of an otherwise acceptable message
+\* cannot be written: the message is refused (SERVFAIL) and nothing is applied.  (Waiting until the
+\* lock is gone and going on as usual is the normal Receive.)  What may not happen is the update
+\* applied and acknowledged without its rows -- acknowledged and lost at the next stop.
+LockHeld ==
+    /\ pc = "idle" /\ n < MaxMsgs
+    /\ \E m \in Msgs :
+         /\ PrereqErrors(mem, m.pre, Apex) \cup PrescanErrors(m.upd, Apex) = {} /\ Len(m.upd) > 0
+         /\ msg' = m
+    /\ reply' = "SERVFAIL" /\ pc' = "ack" /\ i' = 1
+    /\ fin' = [rrs |-> mem.rrs, ser |-> mem.ser, changed |-> FALSE]
+    /\ hist' = Append(hist, Boundary(fin', Far))
+    /\ UNCHANGED <<mem, journal, chk, served, n, crashes>>
+
 MsgRows == [q \in 1..Len(msg.upd) |-> UpdRow(msg.upd[q])]
            \o (IF fin.changed THEN <<SoaRowOf(fin.ser)>> ELSE <<>>)
 
@@ -184,7 +199,7 @@ Recover ==
             /\ pc' = "idle"
     /\ UNCHANGED <<journal, msg, i, fin, reply, n, crashes>>
 
-Next == Boot \/ DumpAll \/ DumpRow \/ Receive \/ LogAll \/ LogRow \/ Apply \/ SoaRow \/ Ack \/ Crash \/ Recover
+Next == Boot \/ DumpAll \/ DumpRow \/ Receive \/ LockHeld \/ LogAll \/ LogRow \/ Apply \/ SoaRow \/ Ack \/ Crash \/ Recover
 Spec == Init /\ [][Next]_vars
 
 -----------------------------------------------------------------------------
